@@ -121,8 +121,7 @@ theorem step_tagEnd_gt (c : Cfg) (last : St) (E P : AFrame) (r : List AFrame)
   · simp only [astack, List.map_cons, List.cons.injEq] at h4
     obtain ⟨he, hp, hr⟩ := h4
     have ht : e.tag = E.1 := by rw [← he]; rfl
-    have hlen : ¬ (rest.length + 1 + 1 < 2) := by omega
-    simp [step, popAttach, ofOpt, ht, hlen]
+    simp [step, popAttach, ofOpt, ht, lengthLt2]
     refine ⟨rfl, rfl, rfl, ?_⟩
     simp [astack, fabs_attach, erase_toNode, he, hp, hr, attachA]
 
